@@ -72,6 +72,7 @@ fn main() {
       worker_main(
         &*sim,
         WorkerArgs {
+          out: opt(rest, "out"),
           seed,
           tier,
           from: opt(rest, "from").and_then(|s| s.parse().ok()).unwrap_or(0),
